@@ -49,6 +49,18 @@ CHECKS = {
              "one-piece result.",
         technique="TLA+ model of the reader loops model-checked against a whole-stream reference; TLC trace validation of the real readers over all segmentations; differential public-call corpus",
         design_ref="4 C03", note=TRUST),
+    "C04": dict(
+        category="exploration",
+        text="TLC enumerates the 86k-point scenario grid of spec/RoundTrip.tla (store op x fetch op x 13 value classes x 9 serializers x 5 key "
+             "classes x 5 key-collection types) and checks on every point that the contract monitor spec/RoundTripRule.tla accepts the right fetch "
+             "and rejects a miss / wrong value / wrong type / foreign key object. A seeded sample of the grid (quick 1/25, thorough 1/3) plus a "
+             "deterministic edge sweep (values whose tail interacts with the CR LF terminator x every segmentation mode incl. splits right after "
+             "every CR and right before every LF x every fetch op) is executed against the reference server, which stores the bytes it actually "
+             "received; TLC validates every recorded store/fetch sequence: prefixed key on the wire (computed in TLA+), every present requested "
+             "key exactly once under the caller's own key object, value equal and of the same exact type.",
+        technique="TLA+ contract monitor + TLC-enumerated scenario grid; seeded concretisation; TLC trace validation",
+        design_ref="4 C04",
+        note=TRUST + " Universality over value content is sampled within exhaustively enumerated classes; value equality and type are observed facts the contract requires (encode/decode fidelity is outside what a specification decides)."),
     "C05": dict(
         category="model_checking",
         text="TLC explores the abstract cache (spec/Cache.tla over spec/CacheRule.tla: map with expiry classes and cas versions, the "
